@@ -63,6 +63,11 @@ CLAIMED = {
     "C10": dict(level="exploration", design="5/C10", technique="trace validation of both composition orders and of decrypt_block against an independently written TLA+ inverse",
                 text="For every sampled triple D(E(x)) = x and E(D(x)) = x on the real code and D(x) equals Threefish.tla!Decrypt, an inverse written independently of Encrypt.",
                 note="Trusted: TLC, Threefish.tla, sampled inputs."),
+    "C08": dict(level="model_checking", design="5/C08", technique="TLC model checking of block-buffered hasher models (all partitions, clone/reset) + replay of every edge of the real-size graph on 15 hash types + TLC trace validation with ghost messages",
+                text="HashBuf.tla / HashInst.tla are checked exhaustively by TLC at a scaled block size (state is a function of the message, digests equal OneShot(ghost message), instance independence, per-kind "
+                     "finalisation case split equals an independent padding rule). MCHashReal's labelled graph at the real block sizes is replayed edge by edge on all 15 hash types, and these plus random histories "
+                     "are validated by TLC with TraceHashBuf.tla, which tracks every instance's ghost message through update/clone/reset/finalize_reset.",
+                note="Trusted: TLC; abstract compression in the models; one-shot digests tied to the specifications by C04-C07; harness recording (canary episodes)."),
 }
 
 PENDING = {  # properties whose checks are not built yet in this tree (kept current as checks land)
